@@ -942,11 +942,19 @@ func (m *fakeMemcache) serve(c net.Conn) {
 // for the same key. Explored: what the cache holds for that key when the
 // second signing asks {the token stored by the first signing, nothing,
 // garbage, a truncated token, a genuine token that belongs to another
-// signature, connection dropped} x whether the store accepts a new entry x
+// signature, this signature's token with its signature damaged, connection dropped} x whether the store accepts a new entry x
 // the authority's answer if it is asked {valid, wrong imprint, http-500}.
 // Whatever the cache says, the artifact carries a token only if that token
 // matches this signature, and signing fails only if neither the cache nor the
 // authority offered an acceptable one.
+func flipAt(b []byte, i int) []byte {
+	out := append([]byte{}, b...)
+	if i >= 0 && i < len(out) {
+		out[i] ^= 0x20
+	}
+	return out
+}
+
 func cachePhase() {
 	srv, dir := startAuthority(), scratchDir()
 	defer srv.Close()
@@ -1025,6 +1033,12 @@ func cachePhase() {
 		{"truncated-token", genuineA[:len(genuineA)/2], false, false},
 		{"genuine-token-of-another-signature", genuineB, false, false},
 		{"empty-value", []byte{}, false, false},
+		// the right imprint, but the authority's signature does not hold: an entry
+		// damaged in the store, or written there by someone else (memcached has no
+		// authentication); last byte = end of the signature value, middle of the
+		// last 300 bytes = inside the signed attributes / signature
+		{"token-of-this-signature-with-damaged-signature-value", flipAt(genuineA, len(genuineA)-1), false, false},
+		{"token-of-this-signature-damaged-near-its-end", flipAt(genuineA, len(genuineA)-150), false, false},
 		{"connection-dropped", genuineA, false, true},
 	}
 	auth := []behaviour{behaviours[0], {"wrong-imprint", false}, {"http-500", false}}
